@@ -9,11 +9,14 @@ LOOPING = ['TXT', 'OPT', 'NSEC', 'SVCB', 'HTTPS']
 
 
 def tasks(tier, params):
-    L = params.get('L_thorough', 9) if tier == 'thorough' else params.get('L_quick', 6)
+    L = params.get('L_thorough', 8) if tier == 'thorough' else params.get('L_quick', 6)
     out = []
     for t in params.get('types', LOOPING):
         for l in range(1, L + 1):
-            out.append(('%s.L%d' % (t, l), {'type': t, 'L': l, 'N': 2 * L + 4}))
+            # OPT::parse starts at the TYPE field of its record (it takes the UDP size and version from CLASS and TTL): the
+            # 10-byte fixed part comes on top of the l option-area bytes
+            ll = l + 10 if t == 'OPT' else l
+            out.append(('%s.L%d' % (t, ll), {'type': t, 'L': ll, 'N': 2 * ll + 4}))
     return out
 
 
